@@ -47,6 +47,9 @@ type RaftGroup struct {
 	raftLeaderId  uint64
 	wal           wal.WAL
 	log           *log.Entry
+
+	started bool
+	doneC   chan struct{}
 }
 
 func startRaftNode(id uint64, address string, nodeIds []uint64, storage wal.WAL, logger *log.Entry) (etcdRaft.Node, error) {
@@ -131,6 +134,7 @@ func NewRaftGroup(id uuid.UUID, nodeIds []uint64, storage wal.WAL, transport *Ra
 		raft:              raftNode,
 		wal:               storage,
 		log:               logger,
+		doneC:             make(chan struct{}),
 	}
 
 	if err := transport.addGroup(g); err != nil {
@@ -150,6 +154,7 @@ func (this *RaftGroup) Start() error {
 			return err
 		}
 	}
+	this.started = true
 	go this.run()
 	return nil
 }
@@ -157,6 +162,11 @@ func (this *RaftGroup) Start() error {
 func (this *RaftGroup) Stop() {
 	this.raft.Stop()
 	this.ctxCancel()
+	if this.started {
+		// Wait for the ready-loop to finish what it is doing: callers delete
+		// the group's log right after Stop returns.
+		<-this.doneC
+	}
 
 	if err := this.transport.removeGroup(this.id); err != nil {
 		this.log.Error(err)
@@ -213,6 +223,8 @@ func (this *RaftGroup) ProposeLeave(nodeId uint64) error {
 }
 
 func (this *RaftGroup) run() {
+	defer close(this.doneC)
+
 	ticker := time.NewTicker(100 * time.Millisecond)
 	defer ticker.Stop()
 
